@@ -178,6 +178,7 @@ structure State where
   tdefOff : List (String × Int) := []       -- `tdef.max_future_prereq_offset` of every task definition that has one
   maxFut : Option Int := none               -- `TaskPool.max_future_offset`
   hist : List Hist := []
+  histQ : List Hist := []                   -- `task_states` rows queued for the next commit (instances refused by `spawn_task`)
   rhLimit : Option Int := none
   prevBase : Option Int := none
   prevSeqPts : List Int := []
@@ -245,6 +246,9 @@ def State.get? (s : State) (p : Int) (n : String) : Option Proxy :=
 def State.put (s : State) (x : Proxy) : State :=
   { s with pool := s.pool.map fun y => if y.pt == x.pt && y.name == x.name then x else y }
 
+/-- `process_queued_ops`: the queued `task_states` rows reach the database -/
+def State.flushHist (s : State) : State := { s with hist := s.hist ++ s.histQ, histQ := [] }
+
 /-! ### Future offsets, runahead limit, `add_to_pool` -/
 
 /-- position of a new proxy in `get_tasks()` order: `active_tasks` is a dict of cycle buckets (in creation
@@ -285,14 +289,38 @@ def minOf : List Int → Option Int
   | [] => none
   | x :: xs => some (xs.foldl min x)
 
+/-- the last element, or `d` for an empty list -/
+def lastOr (l : List Int) (d : Int) : Int :=
+  match l.getLast? with
+  | none => d
+  | some v => v
+
+/-- "Adjust for future offset" -/
+def applyOffset (l0 : Int) (off : Option Int) : Int :=
+  match off with
+  | some k => l0 + k
+  | none => l0
+
+/-- "... and stop point" -/
+def capAt (sp : Option Int) (l : Int) : Int :=
+  match sp with
+  | some q => if l > q then q else l
+  | none => l
+
+/-- the runahead base point: the earliest pooled point (an empty pool: the earliest first point of the recurrences) -/
+def basePointOf (g : Graph) (s : State) : Option Int :=
+  if s.pool.isEmpty then minOf (g.seqs.filterMap fun q => q.find? (· ≥ g.start))
+  else minOf (s.pool.map (·.pt))
+
+/-- the points `compute_runahead` generates: the first n+1 of every recurrence from the base point -/
+def seqPoints (g : Graph) (b : Int) : List Int :=
+  sortDedup (g.seqs.flatMap fun q => (q.filter (· ≥ b)).take (g.runahead + 1))
+
 /-- `compute_runahead` (count-cycles limit `Pn`): base point = earliest pooled point; unforced: early return when the
 base point did not move or the limit sits at the stop point; the limit is extended by the cached maximum future
 offset and then capped at the stop point -/
 def computeRunahead (g : Graph) (s : State) (force : Bool := false) : State :=
-  let base : Option Int :=
-    if s.pool.isEmpty then minOf (g.seqs.filterMap fun q => q.find? (· ≥ g.start))
-    else minOf (s.pool.map (·.pt))
-  match base with
+  match basePointOf g s with
   | none => s
   | some b =>
     let prevBase := s.prevBase.getD b
@@ -301,18 +329,9 @@ def computeRunahead (g : Graph) (s : State) (force : Bool := false) : State :=
     else
       let pts : List Int :=
         if !force && !s.prevSeqPts.isEmpty && b == prevBase then s.prevSeqPts
-        else sortDedup (g.seqs.flatMap fun q => (q.filter (· ≥ b)).take (g.runahead + 1))
-      let limit0 : Int :=
-        match (pts.take (g.runahead + 1)).getLast? with
-        | none => b
-        | some l => l
-      let limit1 : Int := match s.maxFut with
-        | some k => limit0 + k
-        | none => limit0
-      let limit : Int := match s.stopPoint with
-        | some sp => if limit1 > sp then sp else limit1
-        | none => limit1
-      { s with prevSeqPts := pts, prevBase := some b, rhLimit := some limit }
+        else seqPoints g b
+      { s with prevSeqPts := pts, prevBase := some b,
+               rhLimit := some (capAt s.stopPoint (applyOffset (lastOr (pts.take (g.runahead + 1)) b) s.maxFut)) }
 
 /-- the largest `tdef.max_future_prereq_offset` among the pooled proxies -/
 def poolMaxOff (s : State) : Option Int :=
@@ -329,17 +348,24 @@ def setMaxFut (g : Graph) (s : State) : State :=
   let s' := { s with maxFut := m }
   if m != s.maxFut then computeRunahead g s' true else s'
 
+/-- the ghost proxies the data store builds for the graph neighbours of a proxy entering the pool -/
+def ghostsOf (g : Graph) (x : Proxy) : List (String × Int) :=
+  match (g.task? x.name).bind (·.inst? x.pt) with
+  | some d => d.ghosts
+  | none => []
+
+def ghostTouch (g : Graph) (s : State) (x : Proxy) : State :=
+  (ghostsOf g x).foldl (fun st k => touch g st k.1 k.2) s
+
 /-- `add_to_pool`: no-op when the key is present; the data store builds ghost proxies for the graph neighbours
 (`create_data_store_elements` → `increment_graph_window`); `set_max_future_offset` only when the task definition of
 the new proxy has a future offset -/
+def enterPool (g : Graph) (s : State) (x : Proxy) : State :=
+  ghostTouch g { s with pool := insertBucket x s.pool } x
+
 def State.add (g : Graph) (s : State) (x : Proxy) : State :=
-  if (s.get? x.pt x.name).isSome then s else
-  let s := { s with pool := insertBucket x s.pool }
-  let ghosts := match (g.task? x.name).bind (·.inst? x.pt) with
-    | some d => d.ghosts
-    | none => []
-  let s := ghosts.foldl (fun st k => touch g st k.1 k.2) s
-  if (s.offOf x.name).isSome then setMaxFut g s else s
+  if (s.get? x.pt x.name).isSome then s
+  else if ((enterPool g s x).offOf x.name).isSome then setMaxFut g (enterPool g s x) else enterPool g s x
 
 /-- `TaskState.reset` for the flags used here; sets `upd` when anything changed -/
 def Proxy.reset (x : Proxy) (status : Option Status := none) (queued : Option Bool := none)
@@ -356,55 +382,71 @@ def mkProxy (g : Graph) (name : String) (p : Int) : Option Proxy := do
   let d ← t.inst? p
   pure { pt := p, name := name, pre := d.pre, sui := d.sui }
 
-/-- `spawn_task` (single flow): consult the DB history of the instance, then build the proxy;
-a new proxy is held when a hold was requested for it earlier or it lies beyond the hold point -/
+/-- the latest committed `task_states` row of the instance -/
+def histOf (s : State) (name : String) (p : Int) : Option Hist :=
+  (s.hist.filter fun h => h.pt == p && h.name == name).getLast?
+
+/-- what `spawn_task` makes of the DB history: a fresh proxy, a revived one, or nothing
+("task was removed": a row without outputs; finished and complete: not re-run) -/
+def revive (g : Graph) (name : String) (hist : Option Hist) (x : Proxy) : Option Proxy :=
+  match hist with
+  | none => some x
+  | some h =>
+    if h.done.isEmpty then none
+    else if h.status.isFinal then
+      match g.task? name with
+      | some t => if isComplete t h.done then none
+                  else some { x with status := h.status, submitNum := h.submitNum, done := h.done }
+      | none => none
+    else some { x with status := h.status, submitNum := h.submitNum, done := h.done }
+
+/-- a new proxy is held when a hold was requested for it earlier or it lies beyond the hold point -/
+def holdOnSpawn (s : State) (name : String) (p : Int) (y : Proxy) : State × Proxy :=
+  if s.tasksToHold.contains (name, p) then (s, y.reset (held := some true))
+  else match s.holdPoint with
+    | some hp => if p > hp then
+        ({ s with tasksToHold := s.tasksToHold ++ [(name, p)] }, y.reset (held := some true))
+      else (s, y)
+    | none => (s, y)
+
+/-- "Don't add to pool if it depends on a task beyond the stop point" (`foo[+P1] & bar => baz`): the instance lies
+at or before the stop point and one of its prerequisite atoms targets a point beyond it -/
+def beyondStop (s : State) (p : Int) (y : Proxy) : Bool :=
+  match s.stopPoint with
+  | some sp => decide (p ≤ sp) && y.pre.any fun pr => pr.atoms.any fun a => decide (a.1.pt > sp)
+  | none => false
+
+/-- satisfy absolute triggers from the record of completed absolute outputs -/
+def absSatisfy (g : Graph) (s : State) (name : String) (y : Proxy) : Proxy :=
+  match g.task? name with
+  | some t => if t.hasAbs && !y.prereqsSatisfied then s.absDone.foldl (fun z a => z.satisfyMe a) y else y
+  | none => y
+
+/-- the refusal of an instance without history leaves fresh `task_states` / `task_outputs` rows queued
+(`_load_db_task_proxy`): once committed, later attempts find a row without outputs = "task was removed" -/
+def refuse (s : State) (name : String) (p : Int) (hist : Option Hist) : State :=
+  if hist.isNone then { s with histQ := s.histQ ++ [⟨p, name, .waiting, 0, []⟩] } else s
+
+/-- `spawn_task` (single flow): consult the DB history of the instance, build the proxy (the task definition is
+touched), hold it if requested, refuse it if it depends on a task beyond the stop point -/
 def spawnTask (g : Graph) (s : State) (name : String) (p : Int) : State × Option Proxy :=
-  let hist := (s.hist.filter fun h => h.pt == p && h.name == name).getLast?
-  if hist.isNone && p < g.start then (s, none)       -- warm start: pre-start instances count as run
+  if (histOf s name p).isNone && p < g.start then (s, none)       -- warm start: pre-start instances count as run
   else match mkProxy g name p with
     | none => (s, none)
     | some x =>
-      let s := touch g s name p                        -- the TaskProxy has been constructed
-      let revived : Option Proxy :=
-        match hist with
-        | none => some x
-        | some h =>
-          if h.done.isEmpty then none                 -- "task was removed" (suicide leaves no outputs)
-          else
-            let y := { x with status := h.status, submitNum := h.submitNum, done := h.done }
-            if h.status.isFinal then
-              match g.task? name with
-              | some t => if isComplete t h.done then none else some y    -- finished and complete: not re-run
-              | none => none
-            else some y
-      match revived with
-      | none => (s, none)
+      match revive g name (histOf s name p) x with
+      | none => (touch g s name p, none)
       | some y =>
-        -- hold (requested earlier, or beyond the hold point)
-        let (s, y) :=
-          if s.tasksToHold.contains (name, p) then (s, y.reset (held := some true))
-          else match s.holdPoint with
-            | some hp => if p > hp then
-                ({ s with tasksToHold := s.tasksToHold ++ [(name, p)] }, y.reset (held := some true))
-              else (s, y)
-            | none => (s, y)
-        -- not added to the pool if it depends on a task beyond the stop point ("foo[+P1] & bar => baz")
-        let beyond : Bool := match s.stopPoint with
-          | some sp => p ≤ sp && y.pre.any fun pr => pr.atoms.any fun a => a.1.pt > sp
-          | none => false
-        if beyond then (s, none) else
-        -- satisfy absolute triggers from the record of completed absolute outputs
-        let y := match g.task? name with
-          | some t => if t.hasAbs && !y.prereqsSatisfied then s.absDone.foldl (fun z a => z.satisfyMe a) y else y
-          | none => y
-        (s, some y)
+        let r := holdOnSpawn (touch g s name p) name p y
+        if beyondStop r.1 p r.2 then (refuse r.1 name p (histOf s name p), none)
+        else (r.1, some (absSatisfy g r.1 name r.2))
 
 /-- `get_or_spawn_task` + `add_to_pool` as used by parentless spawning -/
 def spawnAndAdd (g : Graph) (s : State) (name : String) (p : Int) : State :=
   if (s.get? p name).isSome then s            -- merge_flows: same flow, nothing to do
-  else match spawnTask g s name p with
-    | (s, some x) => State.add g s x
-    | (s, none) => s
+  else match (spawnTask g s name p).2 with
+    | some x => State.add g (spawnTask g s name p).1 x
+    | none => (spawnTask g s name p).1
 
 def nextParentless (g : Graph) (x : Proxy) : Option Int := do
   let t ← g.task? x.name
@@ -420,23 +462,26 @@ def spawnNextParentless (g : Graph) (s : State) (x : Proxy) : State :=
 
 /-! ### Runahead release -/
 
+/-- one task of `release_me`: released, then its next parentless instance is spawned -/
+def releaseOne (g : Graph) (st : State) (x : Proxy) : State :=
+  spawnNextParentless g (match st.get? x.pt x.name with
+    | some y => st.put (y.reset (runahead := some false))
+    | none => st) x
+
+/-- the snapshot `release_me`: the runahead-limited proxies at or before the limit, in pool order -/
+def releaseMe (s : State) (lim : Int) : List Proxy := s.pool.filter fun x => x.pt ≤ lim && x.runahead
+
 /-- `release_runahead_tasks`; returns whether anything was released -/
 def releaseRunahead (g : Graph) (s : State) : State × Bool :=
   match s.rhLimit with
   | none => (s, false)
   | some lim =>
     if s.pool.isEmpty then (s, false) else
-    let rel := s.pool.filter fun x => x.pt ≤ lim && x.runahead
-    let s' := rel.foldl (fun (st : State) x =>
-        let st := match st.get? x.pt x.name with
-          | some y => st.put (y.reset (runahead := some false))
-          | none => st
-        spawnNextParentless g st x) s
-    (s', !rel.isEmpty)
+    ((releaseMe s lim).foldl (releaseOne g) s, !(releaseMe s lim).isEmpty)
 
 def releaseRunaheadN (g : Graph) : Nat → State → State
   | 0, s => s
-  | n + 1, s => let (s', r) := releaseRunahead g s; if r then releaseRunaheadN g n s' else s'
+  | n + 1, s => if (releaseRunahead g s).2 then releaseRunaheadN g n (releaseRunahead g s).1 else (releaseRunahead g s).1
 
 /-! ### Queueing and release -/
 
@@ -477,27 +522,36 @@ def loadFromPoint (g : Graph) : State :=
 
 /-- `release_queued_tasks` (unlimited queues) + `prep_submit_task_jobs` with the stub job runner:
 every queued task enters `preparing` under the next submit number and is launched. -/
+def launchProxy (x : Proxy) : Proxy :=
+  { ((x.reset (queued := some false)).reset (status := some .preparing)) with
+    submitNum := x.submitNum + 1, live := true, timers := true }
+
 def releaseAndSubmit (s : State) : State :=
   let rel := s.pool.filter fun x => x.queued && !x.held
   if rel.isEmpty then s else
   let s := rel.foldl (fun (st : State) x =>
-      let y := x.reset (queued := some false)
-      let y := { (y.reset (status := some .preparing)) with submitNum := x.submitNum + 1, live := true, timers := true }
-      { (st.put y) with launched := st.launched ++ [(x.pt, x.name, x.submitNum + 1)] }) s
+      { (st.put (launchProxy x)) with launched := st.launched ++ [(x.pt, x.name, x.submitNum + 1)] }) s
   { s with schedUpd := true }
 
 /-! ### Removal and spawning on outputs -/
+
+/-- the proxy leaves the pool (final `task_states` update, commit now) -/
+def dropPool (s : State) (x : Proxy) : State :=
+  { s.flushHist with pool := s.flushHist.pool.filter (fun y => !(y.pt == x.pt && y.name == x.name)),
+                     hist := s.flushHist.hist ++ [⟨x.pt, x.name, x.status, x.submitNum, x.done⟩],
+                     ghosts := s.flushHist.ghosts ++ [x] }
+
+/-- the tail of `remove`: the cached maximum future offset is recomputed only if the task definition of the
+removed proxy has an offset -/
+def dropKey (g : Graph) (s : State) (x : Proxy) : State :=
+  if ((dropPool s x).offOf x.name).isSome then setMaxFut g (dropPool s x) else dropPool s x
 
 /-- `remove` -/
 def remove (g : Graph) (s : State) (x : Proxy) : State :=
   let s := releaseHeldActive s x
   let x := (s.get? x.pt x.name).getD x
   let s := if !x.flows.isEmpty && x.runahead then spawnNextParentless g s x else s
-  let s := { s with pool := s.pool.filter (fun y => !(y.pt == x.pt && y.name == x.name)),
-                    hist := s.hist ++ [⟨x.pt, x.name, x.status, x.submitNum, x.done⟩],
-                    ghosts := s.ghosts ++ [x] }
-  -- the cached maximum future offset is recomputed only if the task definition of the removed proxy has an offset
-  if (s.offOf x.name).isSome then setMaxFut g s else s
+  dropKey g s x
 
 /-- `remove_if_complete` -/
 def removeIfComplete (g : Graph) (s : State) (x : Proxy) : State :=
@@ -517,47 +571,59 @@ def childrenOf (g : Graph) (x : Proxy) (out : String) : List Child :=
 
 def Proxy.suicideNow (x : Proxy) : Bool := !x.sui.isEmpty && x.sui.all Pre.isSatisfied
 
+/-- an absolute output is recorded (`abs_outputs_done`, DB insert, commit now) -/
+def recordAbs (st : State) (c : Child) (atom : Atom) : State :=
+  let st := if c.isAbs && !st.absDone.contains atom then { st with absDone := st.absDone ++ [atom] } else st
+  if c.isAbs then st.flushHist else st        -- `put_insert_abs_output` + `process_queued_ops`
+
+/-- the proxies whose prerequisites one output satisfies: the child (for an absolute trigger: every pooled instance
+of the child task as well) -/
+def childTargets (st : State) (c : Child) : List (Int × String) :=
+  if c.isAbs then
+    let others := (st.pool.filter fun z => z.name == c.name).map fun z => (z.pt, z.name)
+    if others.contains (c.pt, c.name) then others else others ++ [(c.pt, c.name)]
+  else [(c.pt, c.name)]
+
+/-- `satisfy_me` on every target; the ones whose suicide prerequisites are now all satisfied are collected -/
+def satisfyTargets (atom : Atom) (acc : State × List (Int × String)) (targets : List (Int × String)) :
+    State × List (Int × String) :=
+  targets.foldl (fun (a : State × List (Int × String)) k =>
+    match a.1.get? k.1 k.2 with
+    | none => a
+    | some z =>
+      (a.1.put (z.satisfyMe atom),
+       if (z.satisfyMe atom).suicideNow && !a.2.contains k then a.2 ++ [k] else a.2)) acc
+
 /-- one child of `spawn_on_output`: record an absolute output, find or spawn the child, satisfy the
 prerequisite (for an absolute trigger: of every pooled instance of the child task), collect suicides -/
 def spawnChild (g : Graph) (p : Int) (n out : String) (acc : State × List (Int × String)) (c : Child) :
     State × List (Int × String) :=
-  let (st, sui) := acc
-  let atom : Atom := ⟨p, n, out⟩
-  let st := if c.isAbs && !st.absDone.contains atom then { st with absDone := st.absDone ++ [atom] } else st
-  let inPool := (st.get? c.pt c.name).isSome
-  let (st, child) : State × Option Proxy :=
-    match st.get? c.pt c.name with
-    | some y => (st, some y)
-    | none => spawnTask g st c.name c.pt
-  match child with
-  | none => (st, sui)
-  | some y =>
-    let st := if inPool then st else State.add g st (y.satisfyMe atom)
-    let targets : List (Int × String) :=
-      if c.isAbs then
-        let others := (st.pool.filter fun z => z.name == c.name).map fun z => (z.pt, z.name)
-        if others.contains (c.pt, c.name) then others else others ++ [(c.pt, c.name)]
-      else [(c.pt, c.name)]
-    targets.foldl (fun (a : State × List (Int × String)) k =>
-      match a.1.get? k.1 k.2 with
-      | none => a
-      | some z =>
-        let z := z.satisfyMe atom
-        (a.1.put z, if z.suicideNow && !a.2.contains k then a.2 ++ [k] else a.2)) (st, sui)
+  let st := recordAbs acc.1 c ⟨p, n, out⟩
+  match st.get? c.pt c.name with
+  | some _ => satisfyTargets ⟨p, n, out⟩ (st, acc.2) (childTargets st c)
+  | none =>
+    match (spawnTask g st c.name c.pt).2 with
+    | none => ((spawnTask g st c.name c.pt).1, acc.2)
+    | some y =>
+      let st2 := State.add g (spawnTask g st c.name c.pt).1 (y.satisfyMe ⟨p, n, out⟩)
+      satisfyTargets ⟨p, n, out⟩ (st2, acc.2) (childTargets st2 c)
+
+/-- the collected suicides are removed -/
+def removeSuicides (g : Graph) (s : State) (ks : List (Int × String)) : State :=
+  ks.foldl (fun (st : State) k => match st.get? k.1 k.2 with
+    | some z => remove g st z
+    | none => st) s
 
 /-- `spawn_on_output` -/
 def spawnOnOutput (g : Graph) (s : State) (p : Int) (n : String) (out : String) : State :=
   match s.get? p n with
   | none => s
   | some x =>
-    let cs := if x.flows.isEmpty then [] else childrenOf g x out
-    let (s, suicides) := cs.foldl (spawnChild g p n out) (s, [])
-    let s := suicides.foldl (fun (st : State) k => match st.get? k.1 k.2 with
-      | some z => remove g st z
-      | none => st) s
-    match s.get? p n with
-    | some x' => removeIfComplete g s x'
-    | none => s
+    let r := (if x.flows.isEmpty then [] else childrenOf g x out).foldl (spawnChild g p n out) (s, [])
+    let s2 := removeSuicides g r.1 r.2
+    match s2.get? p n with
+    | some x' => removeIfComplete g s2 x'
+    | none => s2
 
 /-! ### Messages -/
 
@@ -665,21 +731,25 @@ def groupMsgs (q : List Msg) : List ((Int × String) × List Msg) :=
       acc.map fun e => if e.1 == (m.pt, m.name) then (e.1, e.2 ++ [m]) else e
     else acc ++ [((m.pt, m.name), [m])]) []
 
-/-- `process_queued_task_messages` -/
+/-- the messages of one task, in order of arrival; returns whether a poll is requested -/
+def processGroupMsgs (g : Graph) (p : Int) (n : String) (msgs : List Msg) (st : State) : State × Bool :=
+  msgs.foldl (fun (acc : State × Bool) m =>
+    ((processMessage g 4 acc.1 p n .received m.submitNum m.text).1,
+     acc.2 || (processMessage g 4 acc.1 p n .received m.submitNum m.text).2)) (st, false)
+
+/-- one task of the batch: without a pooled proxy its messages are left for job-only processing after all groups -/
+def processGroup (g : Graph) (acc : State × List (Int × String)) (grp : (Int × String) × List Msg) :
+    State × List (Int × String) :=
+  match acc.1.get? grp.1.1 grp.1.2 with
+  | none => (acc.1, acc.2 ++ grp.2.map fun _ => grp.1)
+  | some _ =>
+    let r := processGroupMsgs g grp.1.1 grp.1.2 grp.2 acc.1
+    (if r.2 then { r.1 with polls := r.1.polls ++ [grp.1] } else r.1, acc.2)
+
+/-- `process_queued_task_messages`; `process_job_message` builds a temporary TaskProxy for every message without a
+pooled task (the task definition is touched) -/
 def processQueue (g : Graph) (s : State) : State :=
-  let groups := groupMsgs s.queue
-  let s := { s with queue := [] }
-  let r := groups.foldl (fun (acc : State × List (Int × String)) grp =>
-    let st := acc.1
-    let (p, n) := grp.1
-    match st.get? p n with
-    | none => (st, acc.2 ++ grp.2.map fun _ => (p, n))      -- no proxy: job-only processing, after all groups
-    | some _ =>
-      let (st, poll) := grp.2.foldl (fun (acc : State × Bool) m =>
-          let (st', pl) := processMessage g 4 acc.1 p n .received m.submitNum m.text
-          (st', acc.2 || pl)) (st, false)
-      (if poll then { st with polls := st.polls ++ [(p, n)] } else st, acc.2)) (s, [])
-  -- `process_job_message` builds a temporary TaskProxy for every message without a pooled task
+  let r := (groupMsgs s.queue).foldl (processGroup g) ({ s with queue := [] }, [])
   r.2.foldl (fun st k => touch g st k.2 k.1) r.1
 
 /-! ### Stall and shutdown -/
@@ -730,25 +800,30 @@ inductive Op where
 def clearOp (s : State) : State := { s with launched := [], polls := [], ghosts := [], db := none }
 
 /-- the queue-if-ready sweep over waiting, unqueued, released proxies -/
-def sweepQueue (s : State) : State :=
-  s.pool.foldl (fun st x => match st.get? x.pt x.name with
-    | some y =>
-      if y.status == .waiting && !y.queued && !y.runahead then
-        -- zero-delay retry clock triggers are satisfied by the time of the next sweep
-        let y := { y with retryWait := false }
-        queueIfReady (st.put y) y
-      else st
-    | none => st) s
+def sweepOne (st : State) (x : Proxy) : State :=
+  match st.get? x.pt x.name with
+  | some y =>
+    if y.status == .waiting && !y.queued && !y.runahead then
+      -- zero-delay retry clock triggers are satisfied by the time of the next sweep
+      queueIfReady (st.put { y with retryWait := false }) { y with retryWait := false }
+    else st
+  | none => st
+
+def sweepQueue (s : State) : State := s.pool.foldl sweepOne s
 
 /-- end of the main loop: updated flags, DB commit of the task pool, stall check -/
+def hasUpdates (s : State) : Bool := s.schedUpd || s.pool.any (·.upd)
+
+/-- the updated flags are cleared and the task pool is committed to the DB -/
+def preCommit (s : State) : State :=
+  let s1 := if s.pool.any (·.upd) then { s with restartWait := false } else s
+  let s2 := if hasUpdates s then
+      { s1 with stalled := false, schedUpd := false, pool := s1.pool.map fun x => { x with upd := false } }
+    else s1
+  { s2.flushHist with db := some s2.pool }      -- put_task_pool + process_queued_ops
+
 def finishLoop (g : Graph) (s : State) : State :=
-  let hasUpd := s.schedUpd || s.pool.any (·.upd)
-  let s := if s.pool.any (·.upd) then { s with restartWait := false } else s
-  let s := if hasUpd then
-      { s with stalled := false, schedUpd := false, pool := s.pool.map fun x => { x with upd := false } }
-    else s
-  let s := { s with db := some s.pool }      -- put_task_pool + process_queued_ops
-  if !hasUpd && s.stopMode.isNone then checkStalled g s else s
+  if !hasUpdates s && (preCommit s).stopMode.isNone then checkStalled g (preCommit s) else preCommit s
 
 /-- `TaskPool.can_stop` -/
 def canStop (s : State) : Bool :=
@@ -764,25 +839,31 @@ def stopTaskDone (s : State) : State × Bool :=
     ({ s with stopTask := none, stopTaskFinished := false }, true)
   else (s, false)
 
-/-- one iteration of `Scheduler._main_loop` -/
-def mainLoop (g : Graph) (s : State) : State :=
-  if s.stop.isSome then s else
-  let s := computeRunahead g s
-  let s := (releaseRunahead g s).1
-  -- workflow_shutdown
-  let s :=
-    if s.stopMode.isNone then
-      let (s, std) := stopTaskDone s
-      if std then { s with stopMode := some "AUTOMATIC" }
-      else
-        let (s, auto) := checkAutoShutdown g s
-        if auto then { s with stopMode := some "AUTOMATIC" } else s
-    else s
-  if canStop s then { s with stop := s.stopMode } else
+/-- `workflow_shutdown`: with no stop requested, the stop task / the automatic shutdown may request one -/
+def shutdownDecision (g : Graph) (s : State) : State :=
+  if s.stopMode.isNone then
+    if (stopTaskDone s).2 then { (stopTaskDone s).1 with stopMode := some "AUTOMATIC" }
+    else
+      if (checkAutoShutdown g (stopTaskDone s).1).2 then
+        { (checkAutoShutdown g (stopTaskDone s).1).1 with stopMode := some "AUTOMATIC" }
+      else (checkAutoShutdown g (stopTaskDone s).1).1
+  else s
+
+/-- the rest of the main loop once the scheduler is not stopping now -/
+def loopBody (g : Graph) (s : State) : State :=
   let s := sweepQueue s
   let s := if s.stopMode.isNone && !s.paused then releaseAndSubmit s else s
   let s := processQueue g s
   finishLoop g s
+
+/-- the first two calls of the main loop: `compute_runahead`, `release_runahead_tasks` -/
+def preShutdown (g : Graph) (s : State) : State := (releaseRunahead g (computeRunahead g s)).1
+
+/-- one iteration of `Scheduler._main_loop` -/
+def mainLoop (g : Graph) (s : State) : State :=
+  if s.stop.isSome then s else
+  let s := shutdownDecision g (preShutdown g s)
+  if canStop s then { s with stop := s.stopMode } else loopBody g s
 
 /-- `set_stop_point` -/
 def setStopPoint (s : State) (p : Int) : State :=
@@ -826,27 +907,45 @@ def releaseHoldPoint (s : State) : State :=
     | some y => releaseHeldActive st y | none => st) s
   { s with tasksToHold := [] }
 
-/-- clean restart from the database written at shutdown (`load_db_task_pool_for_restart`, `configure`) -/
-def restart (g : Graph) (s : State) : State :=
-  let restore (x : Proxy) : Proxy :=
-    let (status, sn) := if x.status == .preparing then (Status.waiting, x.submitNum - 1) else (x.status, x.submitNum)
-    let keepOut := status == .running || status == .failed || status == .succeeded
-    let final := status == .failed || status == .succeeded || status == .expired
-    { x with status := status, submitNum := sn, done := if keepOut then x.done else [],
-             queued := false, runahead := !final, retryWait := false, live := false,
-             upd := (x.status == .preparing) || final }
-  -- stop point: DB `stopcp`, else flow.cylc, else the final point
+/-- a `task_pool` row as loaded by `load_db_task_pool_for_restart` -/
+def restoreProxy (x : Proxy) : Proxy :=
+  let status := if x.status == .preparing then Status.waiting else x.status
+  let sn := if x.status == .preparing then x.submitNum - 1 else x.submitNum
+  let keepOut := status == .running || status == .failed || status == .succeeded
+  let final := status == .failed || status == .succeeded || status == .expired
+  { x with status := status, submitNum := sn, done := if keepOut then x.done else [],
+           queued := false, runahead := !final, retryWait := false, live := false,
+           upd := (x.status == .preparing) || final }
+
+/-- the stop point after a restart: DB `stopcp`, else flow.cylc, else the final point -/
+def restoredStop (g : Graph) (s : State) : Int :=
+  match s.dbStopCp with
+  | some p => p
+  | none => g.cfgStop.getD g.fcp
+
+/-- the new scheduler process before the pool is loaded: no task definition has a future offset yet -/
+def restartBase (g : Graph) (s : State) : State :=
   let cfgStop : Option Int := match s.dbStopCp with | some p => some p | none => g.cfgStop
-  let pool := s.pool.map restore
+  let pool := s.pool.map restoreProxy
   let wait := pool.isEmpty || (match cfgStop with
     | some sp => pool.all (fun x => x.pt > sp)
     | none => false)
-  let s' : State :=
-    { pool := pool, hist := s.hist, absDone := s.absDone,
-      tasksToHold := s.tasksToHold, holdPoint := s.holdPoint, stopPoint := some (cfgStop.getD g.fcp),
-      dbStopCp := s.dbStopCp, restartWait := wait,
-      stopTask := s.stopTask, stopTaskFinished := false, schedUpd := true }
-  -- `configure` re-applies the hold point after the pool is loaded
+  { pool := [], hist := s.hist ++ s.histQ, absDone := s.absDone,
+    tasksToHold := s.tasksToHold, holdPoint := s.holdPoint, stopPoint := some (restoredStop g s),
+    dbStopCp := s.dbStopCp, restartWait := wait,
+    stopTask := s.stopTask, stopTaskFinished := false, schedUpd := true }
+
+/-- one row of `load_db_task_pool_for_restart`: the TaskProxy is constructed, loaded runahead-limited, added to the
+pool (ghost proxies, `set_max_future_offset`, possibly a forced `compute_runahead` on the partly loaded pool) and
+released at once if it is finished -/
+def loadRow (g : Graph) (st : State) (x : Proxy) : State :=
+  let y := restoreProxy x
+  (State.add g (touch g st y.name y.pt) { y with runahead := true }).put y
+
+/-- clean restart from the database written at shutdown (`load_db_task_pool_for_restart` row by row - DB row order =
+pool order -, then `configure` re-applies the hold point) -/
+def restart (g : Graph) (s : State) : State :=
+  let s' := s.pool.foldl (loadRow g) (restartBase g s)
   match s'.holdPoint with
   | some hp => setHoldPoint s' hp
   | none => s'
